@@ -304,6 +304,41 @@ def arbitrary_precision_enabled():
     return _AP
 
 
+def discharge_lensum(site):
+    """`a.len() + b.len()`, `"lit".len() + s.len()`, `s.len() + 2`: lengths of objects in memory are at most isize::MAX each, so
+    the sum of at most two of them and a small constant fits usize"""
+    v = site.v
+    t = v.blocks[site.bb]["term"]
+    if not (site.kind == "assert" and "Overflow(Add" in t.get("msg", "")):
+        return None
+    for st in v.blocks[site.bb]["stmts"]:
+        if st["k"] == "assign" and st["rv"]["k"] == "binop" and st["rv"]["op"] in ("AddWithOverflow", "Add"):
+            lens = 0
+            ok = True
+
+            def leaf(tm, depth=0):
+                nonlocal lens, ok
+                tm = strip_refs(canon(v, tm))
+                if tm[0] == "const" and tm[1] == "int" and isinstance(tm[2], int) and 0 <= tm[2] < (1 << 32):
+                    return
+                if tm[0] == "call" and (call_name(v, tm) or "").split("::")[-1] == "len" and \
+                        any((call_name(v, tm) or "").startswith(p_) for p_ in ("std::string::String::len", "core::str::", "std::str::", "str::len", "std::vec::Vec", "core::slice::", "std::slice::", "slice::len", "<[")):
+                    lens += 1
+                    return
+                if tm[0] == "field" and isinstance(tm[1], tuple) and tm[1][0] == "binop" and depth < 2:
+                    # a previous checked sum (`(a + b).0`)
+                    for o in tm[1][2:4]:
+                        if isinstance(o, tuple):
+                            leaf(o, depth + 1)
+                    return
+                ok = False
+            leaf(v.origin(st["rv"]["a"]))
+            leaf(v.origin(st["rv"]["b"]))
+            if ok and lens <= 2:
+                return "C12.LENSUM", "sum of at most two in-memory lengths and a small constant (each length is at most isize::MAX)"
+    return None
+
+
 def discharge_error_type(site):
     v = site.v
     t = v.blocks[site.bb]["term"]
@@ -477,7 +512,7 @@ def run(ctx):
                     # the panic inside FieldState::unwrap itself is accounted for at its call sites
                     d = ("C12.CALLER", "library helper whose call sites are census items themselves")
                 else:
-                    d = discharge_lib(s, bs)
+                    d = discharge_lib(s, bs) or discharge_lensum(s)
                     if d is None and sk is not None:
                         d = discharge_derived(s, sk[1], sk[0])
                 if d is None:
@@ -502,7 +537,7 @@ def run(ctx):
                 v = View(b)
                 for s in census(lib_crate, b, v, panicky):
                     total += 1
-                    d = discharge_value_source(s) or discharge_error_type(s)
+                    d = discharge_value_source(s) or discharge_error_type(s) or discharge_lensum(s)
                     if d is None:
                         res.findings.append(Finding("C12.SITE", b.path, "%s is not covered by any guard rule" % s.desc,
                                                     v.blocks[s.bb]["term"].get("at", "")))
